@@ -407,6 +407,50 @@ func ruleGuardedFields(c *Ctx, rule string, filter func(guardEntry) bool) {
 			if !le.Must(i)[g.lock] {
 				okAll = false
 			}
+			// a map (or slice) read out of a guarded field is still the shared object: iterating, indexing or updating
+			// it must happen under the guard as well (handing the live map out of the critical section is a race)
+			if refs != nil {
+				for _, r := range *refs {
+					ld, isLoad := r.(*ssa.UnOp)
+					if !isLoad || ld.Op != token.MUL {
+						continue
+					}
+					switch ld.Type().Underlying().(type) {
+					case *types.Map, *types.Slice:
+					default:
+						continue
+					}
+					seenU := map[ssa.Value]bool{}
+					var uses func(v ssa.Value)
+					uses = func(v ssa.Value) {
+						if seenU[v] || v.Referrers() == nil {
+							return
+						}
+						seenU[v] = true
+						for _, u := range *v.Referrers() {
+							touch := false
+							switch x := u.(type) {
+							case *ssa.Phi:
+								uses(x)
+							case *ssa.Range:
+								touch = true
+								uses(x)
+							case *ssa.Next, *ssa.Lookup, *ssa.MapUpdate, *ssa.Index, *ssa.IndexAddr:
+								touch = true
+							case *ssa.Call:
+								if b, ok := x.Call.Value.(*ssa.Builtin); ok && (b.Name() == "delete" || b.Name() == "append") {
+									touch = true
+								}
+							}
+							if touch && !le.Must(u)[g.lock] {
+								okAll = false
+								where = p.ipos(u)
+							}
+						}
+					}
+					uses(ld)
+				}
+			}
 			c.check(rule, construct, okAll, fmt.Sprintf("field %s is guarded by %s; must-lockset here %s", fk, g.lock, le.Must(i)), where)
 		})
 	}
@@ -607,6 +651,28 @@ func ruleNoDoubleClose(c *Ctx, rule string, classFilter func(desc string) bool) 
 			}
 			c.check(rule, construct, ok, "close of a registry element must look the element up and delete it in one critical section (otherwise a second close panics)", p.ipos(cl.instr))
 			continue
+		}
+		// a channel kept in a field of a shared record and closed by a function that takes the record from outside:
+		// nothing says that function runs once per record — unless it is the deferred exit block of the record's own
+		// loop. (A record found in its registry and deleted in the same critical section is the case above.)
+		if ld, ok := cl.ch.(*ssa.UnOp); ok && ld.Op == token.MUL {
+			if fa, ok := ld.X.(*ssa.FieldAddr); ok {
+				base := fa.X
+				_, isParam := base.(*ssa.Parameter)
+				if ld2, ok := base.(*ssa.UnOp); ok {
+					_, isParam = ld2.X.(*ssa.Parameter)
+				}
+				if isParam && !(f.Parent() != nil && isDeferredClosureOf(f, f.Parent())) && f.Signature.Recv() == nil {
+					c.check(rule, construct, false, "close of a channel held in a record passed in as an argument: a second call closes it again (a close must be tied to removing the record from its registry, or to the exit of the record's own loop)", p.ipos(cl.instr))
+					continue
+				}
+				if isParam && f.Signature.Recv() != nil && len(f.Params) > 1 {
+					if pr, isP := base.(*ssa.Parameter); isP && pr != f.Params[0] {
+						c.check(rule, construct, false, "close of a channel held in a record passed in as an argument: a second call closes it again (a close must be tied to removing the record from its registry, or to the exit of the record's own loop)", p.ipos(cl.instr))
+						continue
+					}
+				}
+			}
 		}
 		// single close site, not in loop, function runs once per channel (deferred closure of the owner loop)
 		n := 0
